@@ -94,6 +94,52 @@ class Abs:
             return None
         return None
 
+    def conds_feasible(self, conds, depth=3):
+        """can the branch decisions `conds` (in the step's frame) all hold under this assignment of side and kind?
+        Decides equalities / matches on sides and directions, sign tests of the position size, and - through their own
+        paths - pure bool helpers such as `is_same_way(&position, &side)`."""
+        ix = self.ix
+        for c in conds:
+            at, o = c[0], c[1]
+            if tag(at) == "op" and payload(at)[0] == "eq" and len(kids(at)) == 2 and o in (True, False):
+                l, r = self.ev(kids(at)[0]), self.ev(kids(at)[1])
+                if isinstance(l, str) and isinstance(r, str) and (l == r) != o:
+                    return False
+            if tag(at) == "op" and payload(at)[0] in ("gt", "lt") and o in (True, False):
+                l = self.ev(kids(at)[0])
+                z = kids(at)[1]
+                if isinstance(l, tuple) and l[0] == "size" and tag(ix.inline(z)) == "call" and payload(ix.inline(z))[0].endswith("Integer::zero"):
+                    val = (l[1] == LONG) if payload(at)[0] == "gt" else (l[1] == SHORT)
+                    if val != o:
+                        return False
+            if tag(at) == "op" and payload(at)[0] == "discr" and isinstance(o, tuple):
+                dv = self.ev(kids(at)[0])
+                if isinstance(dv, str) and ((o[0] == "variant" and dv != o[1]) or (o[0] == "other" and dv in o[1])):
+                    return False
+            a0, o0 = at, o
+            while tag(a0) == "op" and payload(a0)[0] == "not" and o0 in (True, False):
+                a0, o0 = kids(a0)[0], (not o0)
+            if tag(a0) == "call" and o0 in (True, False) and depth > 0:
+                fn = ix.call_target(a0)
+                if fn is not None and fn.locals[0]["ty"] == "bool" and ix.ev.pure(fn):
+                    m = ix.param_map(fn, kids(a0))
+                    rets = set()
+                    for p in ix.ok_paths(fn):
+                        cs = [(sym.subst(x, m), y) for (x, y, _b, _l) in p.conds]
+                        if not self.conds_feasible(cs, depth - 1):
+                            continue
+                        rv = ix.inline(sym.subst(p.ret, m))
+                        if tag(rv) == "bool":
+                            rets.add(bool(payload(rv)[0]))
+                        elif tag(rv) == "op" and payload(rv)[0] in ("eq", "ne") and len(kids(rv)) == 2:
+                            l, r = self.ev(kids(rv)[0]), self.ev(kids(rv)[1])
+                            rets.add(((l == r) == (payload(rv)[0] == "eq")) if isinstance(l, str) and isinstance(r, str) else None)
+                        else:
+                            rets.add(None)
+                    if rets and None not in rets and o0 not in rets:
+                        return False
+        return True
+
     def cond(self, at, o, pm):
         """truth of a callee branch under abstract parameters; None if unknown"""
         if tag(at) == "op" and payload(at)[0] == "discr" and kids(at)[0] in pm and isinstance(o, tuple):
@@ -278,25 +324,8 @@ def run(ctx):
                     tmp_side_prev = side
                 ea = Abs(ctx, em, est, side, kind, tmp_side_prev)
                 for q in est.ok_paths():
-                    # feasibility of the emitter path under the assignment (side/direction equalities)
-                    feas = True
-                    for (at, o, _b, _l) in q.conds:
-                        if tag(at) == "op" and payload(at)[0] == "eq" and len(kids(at)) == 2 and o in (True, False):
-                            l, r = ea.ev(kids(at)[0]), ea.ev(kids(at)[1])
-                            if isinstance(l, str) and isinstance(r, str) and (l == r) != o:
-                                feas = False
-                        if tag(at) == "op" and payload(at)[0] in ("gt", "lt") and o in (True, False):
-                            l = ea.ev(kids(at)[0])
-                            z = kids(at)[1]
-                            if isinstance(l, tuple) and l[0] == "size" and tag(ix.inline(z)) == "call" and payload(ix.inline(z))[0].endswith("Integer::zero"):
-                                val = (l[1] == LONG) if payload(at)[0] == "gt" else (l[1] == SHORT)
-                                if val != o:
-                                    feas = False
-                        if tag(at) == "op" and payload(at)[0] == "discr" and isinstance(o, tuple):
-                            # `match side { Buy => .., Sell => .. }` / `match position.direction {..}` spell the same tests
-                            dv = ea.ev(kids(at)[0])
-                            if isinstance(dv, str) and ((o[0] == "variant" and dv != o[1]) or (o[0] == "other" and dv in o[1])):
-                                feas = False
+                    # feasibility of the emitter path under the assignment (side/direction equalities, sign tests, bool helpers)
+                    feas = ea.conds_feasible(q.conds)
                     if not feas:
                         continue
                     for s in em.emitted(q):
